@@ -6,12 +6,13 @@ toolchain go1.23.5
 
 require (
 	github.com/gethiox/HIDI v0.0.0
+	github.com/holoplot/go-evdev v0.0.0-20220721205823-d31c64b9d636
 	pgregory.net/rapid v1.3.0
 )
 
 require (
 	github.com/fsnotify/fsnotify v1.5.1 // indirect
-	github.com/holoplot/go-evdev v0.0.0-20220721205823-d31c64b9d636 // indirect
+	github.com/lucasb-eyer/go-colorful v1.2.0 // indirect
 	github.com/pelletier/go-toml/v2 v2.0.3 // indirect
 	github.com/realbucksavage/openrgb-go v0.0.0-20220821164356-dc79903db082 // indirect
 	gitlab.com/gomidi/midi/v2 v2.0.23 // indirect
